@@ -316,6 +316,16 @@ PROPERTIES['C07'] = {
     'explanation': 'In-capacity / typed / not-moved-out: CBMC pointer checks on every corpus harness. Alignment: contract of read/write/get/get_mut checked with the record placed at a symbolic slot of an aligned arena and ptr::read/write replaced by alignment-asserting wrappers; probes on a bare (align 1) buffer decide which primitives require an aligned receiver; every call site of the emitted modules is classified by receiver (bare local vs field of the repr(align) record).',
     'unchecked': ['stack placement of locals is not observable in CBMC (every object is aligned): the bare-buffer clause is decided by probe + call-site classification, which is type-directed'],
 }
+PROPERTIES['C15'] = {
+    'level': 'model_checking', 'units': lambda tier: [GK],
+    'explanation': GK_EXPL + 'with the serialization fragment enabled, the generated Serialize impl emits a tuple of exactly the variant\'s fields in declaration order, '
+                   'the generated Deserialize impl gives back equal fields, and input with too few elements, an undecodable element, or (self-describing) too many '
+                   'elements is rejected with an error and leaks nothing already decoded (ghost drop counters). The format is an in-harness implementation of serde\'s '
+                   'data model (gk/src/tokfmt.rs), self-describing or not by a symbolic flag.',
+    'unchecked': ['serde_json and bincode themselves (string / number code outside both verifiers): the property\'s "JSON and bincode encodings" are replaced by the in-harness format',
+                  'field types of the serde modules are limited to u8/u16/u32/u64 and a droppable user type',
+                  'one corpus module carries the fragment (three variants incl. an empty-of-droppables one)'],
+}
 PROPERTIES['C16'] = {
     'level': 'model_checking', 'units': lambda tier: [GK],
     'explanation': GK_EXPL + 'clone has equal fields, mutating or dropping either side leaves the other intact, clone_from makes the target equal and destroys its previous contents exactly once.',
